@@ -1225,3 +1225,60 @@ Proof.
   repeat split; try (vm_compute; reflexivity).
   eexists. vm_compute. left. reflexivity.
 Qed.
+
+(* ------------------------------------------------------------------------------------------------ *)
+(* the tag clean-ups of HTML5 / XHTML.processFileContent start at "<" only: text without "<" (all escaped text) is left alone *)
+
+Lemma sub_scan_no_match (m : str -> option (str * nat)) (x : str) :
+  (forall c r, c <> 60 -> m (c :: r) = None) -> ~ In 60 x -> sub_scan m 0 x = x.
+Proof.
+  intros Hm. induction x as [|c r IH]; intros Hx; [reflexivity|].
+  cbn [sub_scan]. rewrite Hm by (intros ->; apply Hx; left; reflexivity).
+  rewrite IH by (intros H; apply Hx; right; assumption). reflexivity.
+Qed.
+
+Lemma prefix_ci_lt_head (p : str) (c : N) (r : str) : c <> 60 -> prefix_ci (60 :: p) (c :: r) = false.
+Proof.
+  intros Hc. cbn [prefix_ci]. destruct (60 =? lower c) eqn:E; [|reflexivity].
+  apply N.eqb_eq in E. unfold lower in E.
+  destruct ((65 <=? c) && (c <=? 90)) eqn:E2.
+  - apply andb_true_iff in E2. destruct E2 as [A B]. apply N.leb_le in A, B. lia.
+  - congruence.
+Qed.
+
+Lemma r1_no_lt (x : str) : ~ In 60 x -> r1 x = x.
+Proof.
+  apply sub_scan_no_match. intros c r Hc. unfold r1_match. rewrite (prefix_ci_lt_head [112; 62] c r Hc). reflexivity.
+Qed.
+
+Lemma r2_no_lt (x : str) : ~ In 60 x -> r2 x = x.
+Proof.
+  apply sub_scan_no_match. intros c r Hc. unfold r2_match.
+  destruct c as [|p]; [reflexivity|].
+  do 6 (destruct p as [p|p|]; try reflexivity). congruence.
+Qed.
+
+Lemma r0_no_lt (x : str) : ~ In 60 x -> r0 x = x.
+Proof.
+  apply sub_scan_no_match. intros c r Hc. unfold r0_match.
+  destruct c as [|p]; [reflexivity|].
+  do 6 (destruct p as [p|p|]; try reflexivity). congruence.
+Qed.
+
+Theorem post_tags_text (x : str) : ~ In 60 x -> post_html5 x = x /\ post_xhtml x = x.
+Proof.
+  intros H. unfold post_html5, post_xhtml. rewrite (r0_no_lt x H), (r1_no_lt x H), (r2_no_lt x H). split; reflexivity.
+Qed.
+
+Corollary post_tags_escape (hi : bool) (s : str) :
+  post_html5 (post_high hi (escape s)) = post_high hi (escape s) /\ post_xhtml (post_high hi (escape s)) = post_high hi (escape s).
+Proof.
+  apply post_tags_text. destruct hi.
+  - intros H. simpl in H. apply in_flat_map in H. destruct H as [c [Hc H]].
+    unfold high_char in H. destruct (127 <? c) eqn:E.
+    + destruct (fmt_3d_spec c) as [_ [Hd _]]. simpl in H. destruct H as [H | [H | H]]; try discriminate.
+      apply in_app_or in H. destruct H as [H | [H | []]]; [|discriminate].
+      rewrite forallb_forall in Hd. specialize (Hd _ H). discriminate.
+    + destruct H as [H | []]. subst c. apply (proj1 (escape_no_angle s)). assumption.
+  - apply (proj1 (escape_no_angle s)).
+Qed.
